@@ -552,6 +552,10 @@ def writeTourC (v : Veh) (pk : Int) (acts : List CAct) : Option (List CStop × C
       let s := later.foldl (stepSegC v pk) s1
       some (s.stops.map tidyC, { s.stat with s := { s.stat.s with cost := s.stat.s.cost + v.fixed } })
 
+/-- clustered tours: the timing entries (with commuting and parking) add up to the duration; returns the gap -/
+def clusterSplitGap (st : CStat) : Int :=
+  st.s.duration - (st.s.driving + st.s.serving + st.s.waiting + st.s.breakT + st.commuting + st.parking)
+
 /-! ## tours with required breaks (reserved times): clauses on the written tour only
 
 `insert_reserved_times_as_breaks` (break_writer.rs) is not modelled; a tour of a vehicle with a required break is judged by what
